@@ -628,7 +628,9 @@ def check_beta(case):
         arg = ref
         d = np.asarray(get_body(ref).propagate(date).copy(frame=case["frame"], form="cartesian").base, float)[:3]
     elif ref == "orbit":
-        rel = case["ref_el"]
+        rel = dict(case["ref_el"])
+        rel["i"] = min(max(rel["i"], 0.05), math.pi - 0.05)      # it goes through the Kepler propagator: regular elements
+        rel["e"] = max(rel["e"], 1e-3)
         rc = tb.kep2cart(rel["a"], rel["e"], rel["i"], rel["raan"], rel["argp"], rel["nu"], mu)
         arg = Orbit(rc, date - timedelta(seconds=case["ref_dt"]), "cartesian", "EME2000", "Kepler")
         dt = (date - arg.date).total_seconds()
@@ -638,10 +640,22 @@ def check_beta(case):
         rn = float(np.linalg.norm(cart[:3]))
         rhat = unit(cart[:3])
         pos = case["sign"] * case["lam"] * rn * (hhat + case["tilt"] * rhat)
-        # (a non-degenerate orbit for it: e ~ 0.3, plane through the orbit normal and the along-track axis)
+        # A non-degenerate orbit for it (it goes through the library's Kepler propagator, i.e. through keplerian
+        # elements): among a few velocity directions perpendicular-ish to pos, the first one that gives
+        # 0.05 < i < pi - 0.05 and 0.05 < e < 0.9 in the frame's axes (checked with the oracle's elements)
         that = unit(np.cross(hhat, rhat))
-        vel = math.sqrt(mu / np.linalg.norm(pos)) * (0.9 * that * case["sign"] + 0.3 * unit(pos))
-        rc = np.concatenate([pos, vel])
+        vc = math.sqrt(mu / np.linalg.norm(pos))
+        rc = None
+        for t_dir in (that, rhat, unit(that + rhat), unit(that - rhat), unit(np.cross(unit(pos), [0.0, 0.0, 1.0]) + 0.3 * that),
+                      unit(np.cross(unit(pos), [1.0, 0.0, 0.0]))):
+            vel = vc * (0.9 * t_dir * case["sign"] + 0.3 * unit(pos))
+            cand = np.concatenate([pos, vel])
+            oe = tb.cart2elements(cand, mu)
+            if 0.05 < oe["i"] < math.pi - 0.05 and 0.05 < oe["e"] < 0.9:
+                rc = cand
+                break
+        if rc is None:
+            raise RuntimeError("generator: no regular orbit found for the spacecraft on the orbit normal")
         arg = Orbit(rc, date, "cartesian", "EME2000", "Kepler")
         d = pos
     with np.errstate(all="ignore"):
